@@ -283,6 +283,10 @@ func (e *Enc) appendBuiltin(x *ssa.Call, cc *callCtx) {
 					e.vals[x] = e.r.def(e.name(x), srt, fmt.Sprintf("(mk_%s %s (- (%s_len %s) 1) false)", srt, arr, srt, old))
 					he := g.HasElem(srt)
 					e.r.assume(fmt.Sprintf("(forall ((v!m %s)) (! (=> (%s %s v!m) (%s %s v!m)) :pattern ((%s %s v!m))))", es, he, e.vals[x], he, old, he, e.vals[x]))
+					// ... and every member of the old slice other than the removed element stays a member (element k of the old
+					// slice sits at k or k-1; 0 <= i < len(old) by the bounds checks of the two slice expressions)
+					e.r.assume(fmt.Sprintf("(forall ((v!m %s)) (! (=> (and (%s %s v!m) (not (= v!m (select (%s_arr %s) %s)))) (%s %s v!m)) :pattern ((%s %s v!m))))",
+						es, he, old, srt, old, i, he, e.vals[x], he, old))
 					return
 				}
 			}
@@ -321,6 +325,25 @@ func (e *Enc) appendBuiltin(x *ssa.Call, cc *callCtx) {
 		}
 		e.r.assume(fmt.Sprintf("(forall ((v!m %s)) (! (= (%s %s v!m) %s) :pattern ((%s %s v!m)) :pattern ((%s %s v!m))))", es, he, e.vals[x], orTerms(eqs), he, e.vals[x], he, a))
 		return
+	}
+	// an argument that is a view base[lo:hi] of a slice: every element of the base inside the window is a member of the view
+	// (follows from the definition of the view; stated because the index shift defeats pattern-based instantiation)
+	for ai := 0; ai < 2; ai++ {
+		if sl, ok := cc.args[ai].(*ssa.Slice); ok {
+			if _, isSlice := types.Unalias(sl.X.Type()).Underlying().(*types.Slice); isSlice && g.SortOf(sl.X.Type()) == s {
+				base := e.val(sl.X)
+				lo, hi := "0", fmt.Sprintf("(%s_len %s)", s, base)
+				if sl.Low != nil {
+					lo = e.val(sl.Low)
+				}
+				if sl.High != nil {
+					hi = e.val(sl.High)
+				}
+				he := g.HasElem(s)
+				e.r.assume(fmt.Sprintf("(forall ((k!w Int)) (! (=> (and (<= %s k!w) (< k!w %s)) (%s %s (select (%s_arr %s) k!w))) :pattern ((select (%s_arr %s) k!w))))",
+					lo, hi, he, e.val(cc.args[ai]), s, base, s, base))
+			}
+		}
 	}
 	arr := e.r.decl(e.r.fresh(e.name(x)+"_arr"), fmt.Sprintf("(Array Int %s)", es))
 	e.r.assume(fmt.Sprintf("(forall ((k!a Int)) (! (= (select %s k!a) (ite (< k!a %s) (select (%s_arr %s) k!a) (select (%s_arr %s) (- k!a %s)))) :pattern ((select %s k!a))))",
